@@ -451,6 +451,32 @@ func main() {
 				}
 			}
 		}
+		// far positions: every token (every gap, also in quick) pushed to a column, and to a line, just below, at and
+		// beyond 4096, 8192 and 12288, with all tokens on one line, with one token per line and with a new line after every semicolon - so that a token
+		// with a very large column is followed by tokens on later lines in small columns, and a token on a very late line
+		// by tokens further right on that line
+		for g := 0; g < len(toks); g++ {
+			for _, p := range []int{4095, 4096, 4097, 8191, 8192, 8193, 12289} {
+				if !r.Quick() || p != 8191 {
+					for _, filler := range []string{" ", "\n"} {
+						// layouts: all on one line; one token per line; a new line after every semicolon
+						for vertical := 0; vertical < 3; vertical++ {
+							g, pad, vertical := g, strings.Repeat(filler, p), vertical
+							try(fmt.Sprintf("far-gap%d-%q-%d-layout%d", g, filler, p, vertical), func(i int) string {
+								sep := space(i)
+								if i > 0 && (vertical == 1 || (vertical == 2 && toks[i-1].Text == ";")) {
+									sep = "\n"
+								}
+								if i == g {
+									return sep + pad
+								}
+								return sep
+							}, "\n")
+						}
+					}
+				}
+			}
+		}
 	}
 	// optional semicolons: every subset of the optional positions of six specifications changes nothing
 	semis(r)
